@@ -322,6 +322,9 @@ def standard(chk):
         q = 0 if chk.tier == "quick" else 1
         versions = (0,) if cfg in ("MC_Alos2_sim_loads", "MC_Alos2_sim_mutate") else (0, 1)
         out += run(chk, cfg, pats, nsim[q], keep[q], depth, locs=locs, versions=versions, need=need)
+    chk.rule_extra.append("sessions: Alos2.tla behaviours from TLC simulation, kept when they contain the history patterns of the property (vacuity-guarded), each replayed "
+                          "step by step in one process; recorded sessions: seeded random operation sequences (per-property weights + multi-step motifs) executed and "
+                          "validated line by line by TLC; a step counts as one evaluation; distinct = history patterns covered")
     chk.assumptions.append("session histories (Alos2.tla): a tree served from an index of another product version, or masking a damaged image "
                            "file, is recorded but not judged; references are computed in a fresh process from an untouched copy")
     return out
